@@ -2,6 +2,7 @@ import AquaVerif.Drv.SoilTexture
 import AquaVerif.Drv.Session
 import AquaVerif.Drv.WeatherBind
 import AquaVerif.Drv.CropCalendar
+import AquaVerif.Drv.PrepareGdd
 import AquaVerif.Drv.Proto
 import AquaVerif.Drv.RainPartition
 import AquaVerif.Drv.RootZone
@@ -77,6 +78,7 @@ def handlers : List (String × Handler) := [
   ("calendar", hCalendar),
   ("civil_range", hCivilRange),
   ("crop_calendar", hCropCalendar),
+  ("prepare_gdd", hPrepareGdd),
   ("reset_calendar", hResetCalendar),
   ("weather_bind", hWeatherBind),
   ("session", hSession),
